@@ -105,6 +105,33 @@ theorem cardinal_of_sets (n e s w : BSet) :
       (tuple (tuple (tuple (modsEach n [swzYXZ]) e) (modsEach s [negAll, swzYXZ])) (modsEach w [negAll])).bindings := by
   simp [bindings]
 
+theorem runMods_append (av : ActionsView) (t : Tick) (ms ns : List Mod) (v : Value) :
+    runMods av t (ms ++ ns) v = runMods av t ns (runMods av t ms v) := by
+  induction ms generalizing v with
+  | nil => rfl
+  | cons m ms ih => simp only [List.cons_append, runMods]; exact ih _
+
+/-- Bidirectional of arbitrary field sets: the positive field's bindings unchanged, then every binding of the negative
+    field with `Negate::all()` appended -/
+theorem bidirectional_of_sets (p n : BSet) :
+    (bidir p n).bindings = (tuple p (modsEach n [negAll])).bindings := by
+  simp [bindings]
+
+/-- "negative ↦ −" for whatever the negative field produces: **every** axis of the field's own result is reversed (the
+    field may be a binding with its own swizzle, a nested stick preset, …, so Y and Z matter) -/
+theorem bidirectional_negates_every_axis (b : InputBind) (av : ActionsView) (t : Tick) (raw : Value) :
+    contribution (withMods b [negAll]) av t raw
+      = ⟨-(contribution b av t raw).x, -(contribution b av t raw).y, -(contribution b av t raw).z⟩ := by
+  simp only [contribution, withMods, runMods_append, runMods, negAll, Mod.apply, Mod.negate, Mod.stateless]
+  cases runMods av t b.mods raw <;> simp [Mod.negateV, Value.as3, boolToRat]
+
+/-- e.g. a vertical Bidirectional whose fields carry their own `SwizzleAxis::YXZ`: up ↦ +Y, down ↦ −Y -/
+example (p n : Input) (av : ActionsView) (t : Tick) :
+    ((bidir (single (withMods { input := p } [swzYXZ])) (single (withMods { input := n } [swzYXZ]))).bindings).map
+      (fun b => contribution b av t (.bool true)) = [⟨0, 1, 0⟩, ⟨0, -1, 0⟩] := by
+  simp [bindings, withMods, swzYXZ, negAll, contribution, runMods, Mod.apply, Mod.swizzle, Mod.negate, Mod.stateless,
+    Mod.swizzleV, Mod.swizzleV.swizzle1, Mod.negateV, Value.as3, boolToRat]
+
 /-- D5 (fixed by bc1fcbe): the pinned code attached `Negate` to *east* and nothing to west: east gave −X -/
 theorem legacy_east_west (av : ActionsView) (t : Tick) :
     contribution (withMods { input := .key 0 {} } [negAll]) av t (.bool true) = ⟨-1, 0, 0⟩ := by
